@@ -45,6 +45,7 @@ def family_cases(rng, tier):
     out = []
     for cls in ('D', 'U'):
         for width, layers in [(2, 2), (2, 4), (2, 6), (3, 3), (2, 8)] + ([(2, 10), (3, 5), (2, 12)] if tier != 'quick' else []):
+            if cls == 'U' and layers >= 12: continue       # the brute-force spec enumerates walks: minutes per case on the undirected 26-vertex graph
             n, es = layered(cls, width, layers)
             out.append(graph_case('PATH', cls, n, es, (0, n - 1)))
             out.append(graph_case('PATH', cls, n, es, (0, 1)))
@@ -68,8 +69,9 @@ def random_cases(rng, k, nmax=9, oor_p=0.03):
 
 # ---- Dijkstra ----
 WEIGHTS = [0, 4, 8, 20]          # 0, 1, 2, 5 in units of 1/4
-def dj_case(cls, n, wedges, s):
-    ops = ' ; '.join('WA %d %d %d 0' % e for e in wedges)
+def dj_case(cls, n, wedges, s, updates=()):
+    # updates: setEdgeWeight calls after the insertions (either endpoint order; the graph the search sees is the updated one)
+    ops = ' ; '.join(['WA %d %d %d 0' % e for e in wedges] + ['WS %d %d %d' % u for u in updates])
     return 'DJ %s dbl %d : %s | %d' % (cls, n, ops, s)
 
 def dj_random(rng, k, nmax=8, oor_p=0.03, weights=WEIGHTS):
@@ -81,7 +83,13 @@ def dj_random(rng, k, nmax=8, oor_p=0.03, weights=WEIGHTS):
         wes = [(rng.randrange(n), rng.randrange(n), rng.choice(weights)) for _ in range(m)]
         s = rng.randrange(n)
         if rng.random() < oor_p: s = rng.choice([n, n + 1, 4294967295])
-        out.append(dj_case(cls, n, wes, s))
+        ups = []
+        if wes and rng.random() < 0.35:          # weights changed afterwards with setEdgeWeight, endpoints in either order
+            for _ in range(rng.randint(1, 3)):
+                i, j, _w = rng.choice(wes)
+                if cls == 'UW' and rng.random() < 0.6: i, j = max(i, j), min(i, j)
+                ups.append((i, j, rng.choice(weights)))
+        out.append(dj_case(cls, n, wes, s, ups))
     return out
 
 def dj_small_exhaustive(rng, n, per_topology, weights=WEIGHTS):
@@ -178,3 +186,17 @@ def climb_scans(run_only, rng, budget_s, kinds=('DJ', 'PATH'), log=None):
         top[kind] = round(best, 3)
     if log is not None: log.update(top)
     return list(dict.fromkeys(tried))
+
+
+def long_chain_cases(rng, k):
+    """searches that dequeue several hundred vertices (the BFS queue and the Dijkstra heap go through many blocks / reallocations):
+    directed chains and rings, every vertex with one successor so that the brute-force spec (all walks of minimal length) stays linear"""
+    out = []
+    for _ in range(k):
+        n = rng.choice([130, 160, 200, 260, 300])
+        es = [(i, i + 1) for i in range(n - 1)]
+        if rng.random() < 0.5: es.append((n - 1, 0))
+        s = rng.choice([0, 0, 1, n // 2]); t = rng.choice([n - 1, n - 2, (s + n - 1) % n])
+        out.append(graph_case('PATH', 'D', n, es, (s, t)))
+        out.append(dj_case('DW', n, [(a, b, rng.choice([4, 8, 20])) for a, b in es], s))
+    return out
